@@ -84,3 +84,7 @@ def replay(case):
     gd = case["graph"]
     gd = {"nodes": gd["nodes"], "di": gd["di"], "bi": gd["bi"]}
     run_case(_C(), gd, {"X": case["X"], "Y": case["Y"], "Z": case["Z"]}, via=case.get("via", "outcomes"))
+
+
+def install_for_suite():
+    mon_id.install(semantic=True, K=2, max_card=3)
